@@ -105,6 +105,33 @@ def generate(rnd, tier):
     return [with_cc(c) for c in cases]
 
 
+def continuation_rule(case, obs, x, sid_cls):
+    """to each handler registered for its class: when a handler of a signal has returned (or failed) and handlers are registered behind it, the next thing that runs
+    is the next of them, for the same signal - whatever the handler did (opened or closed loops, processed signals, ...), unless it force-quit or the exit was requested
+    (activations cut by an exception that passes through them are not judged)"""
+    fq = False; stack = []
+    evs = [(i, ev, ctx) for i, ev, ctx in x.events() if not ctx.get("reader")]
+    for n, (i, ev, ctx) in enumerate(evs):
+        if ev[0] == "api" and ev[1] == "force_quit": fq = True
+        if ev[0] == "api" and ev[1] in ("raise_exit", "raise_err"): stack = []
+        if ev[0] in ("EXC-handled",): stack = []           # a framework exception (KeyError, StackEmpty, ...) passed through whatever was running
+        if ev[0] == "H": stack.append((ev[1], ev[2]))
+        if ev[0] == "h<":
+            if not stack or stack[-1][0] != ev[1]: stack = []; continue
+            hid, sid = stack.pop(); cls = sid_cls.get(sid)
+            if cls is None or fq: continue
+            exp = x.handlers_at(cls, i) if x.late else x.cls_handlers.get(cls, [])
+            if exp.count(hid) != 1 or exp.index(hid) + 1 >= len(exp): continue
+            want = exp[exp.index(hid) + 1]
+            nxt = next((e for _, e, _c in evs[n + 1:] if e[0] in ("H", "h<", "cb", "cb<", "EXC-handled", "quitcb")), None)
+            if nxt is None:
+                if obs["outcome"][0] == "blocked": return "handler %d returned from signal %d but handler %d, registered behind it for class %s, never ran (the run is quiescent)" % (hid, sid, want, cls)
+                continue
+            if not (nxt[0] == "H" and nxt[1] == want and nxt[2] == sid):
+                return "handler %d returned from signal %d; handler %d is registered behind it for class %s but what ran next is %r" % (hid, sid, want, cls, nxt[:3])
+    return None
+
+
 def monitor(case, obs):
     v = ready_rule(case, obs)
     if v: return v
@@ -113,6 +140,11 @@ def monitor(case, obs):
     for i, ev, ctx in x.events():
         if ev[0] == "api" and ev[1] == "enq": sid_cls[ev[5]] = ev[2]
         if ev[0] == "api" and ev[1] == "new_loop": sid_cls[ev[4]] = ev[2]
+    v = continuation_rule(case, obs, x, sid_cls)
+    if v: return v
+    # an ordinary exception raised by a handler is contained: once handlers run, no ordinary exception may leave run()
+    if obs["outcome"][0] == "raised" and obs["outcome"][1] == "err" and any(ev[0] == "H" for i, ev, ctx in x.events()):
+        return "an ordinary exception left run() although handlers were running (a handler's failure must surface as an exception signal, not end the loop)"
     seqs = {}; last = {}; first = {}
     for i, ev, ctx in x.events():
         if ev[0] == "H": first.setdefault(ev[2], i)
